@@ -285,6 +285,10 @@ def run_check(check, tier, seed, triage=False, jobs=None, limit=None):
         if f.get("status", "known") == "known" and known_hit.get(f["id"]):
             print("KNOWN-FINDING: property=%s %s %s (%d cases)" % (pid, f["id"], f.get("what", ""), known_hit[f["id"]]))
 
+    if os.environ.get("MC_DUMP"):
+        with open(os.environ["MC_DUMP"], "w") as fh:
+            for f in unexplained:
+                fh.write(json.dumps(f, default=repr, ensure_ascii=False) + "\n")
     if triage:
         from . import triage as tr
         tr.report(pid, fails, passfeat, findings)
